@@ -225,6 +225,10 @@ type ScriptedTarget struct {
 	Prop string
 	// Inc: incarnation getter; calls arriving from a dead incarnation vanish.
 	IncOf func() *simrt.Inc
+	// OnStart, when set, sees the metadata object handed to Start after it
+	// has been recorded (a target may legitimately write to it, as a pipeline
+	// does when it records a recipient rewrite).
+	OnStart func(msgMeta *module.MsgMetadata)
 
 	mu  sync.Mutex
 	Txs []*TxRecord
@@ -277,6 +281,9 @@ func (t *ScriptedTarget) Start(ctx context.Context, msgMeta *module.MsgMetadata,
 	tx.N = len(t.Txs) + 1
 	t.Txs = append(t.Txs, tx)
 	t.mu.Unlock()
+	if t.OnStart != nil {
+		t.OnStart(msgMeta)
+	}
 	if t.PlanFor != nil {
 		tx.Plan = t.PlanFor(tx)
 	}
